@@ -307,9 +307,9 @@ func relistHarness(name string, fam string, kind string, answers []answer, mk fu
 func relistHarnesses(thorough bool) []*vrt.Harness {
 	std := []answer{ansOK, ansNet, ans404, ans500}
 	var hs []*vrt.Harness
-	shapes := [][3]int{{2, 2, 0}, {3, 1, 1}}
+	shapes := [][3]int{{2, 2, 0}, {3, 1, 1}, {3, 3, 2}}
 	if thorough {
-		shapes = append(shapes, [3]int{1, 3, 0}, [3]int{3, 3, 2}, [3]int{4, 2, 1})
+		shapes = append(shapes, [3]int{1, 3, 0}, [3]int{4, 2, 1}, [3]int{2, 4, 2})
 	}
 	for _, sh := range shapes {
 		hs = append(hs,
